@@ -23,6 +23,7 @@ THEOREMS = [
     'NSV.C04.abc_pitch_rejects', 'NSV.C04.abc_length', 'NSV.C04.abc_default_unit', 'NSV.C04.abc_tempo',
     'NSV.C04.abc_onsets_exact', 'NSV.C04.abc_broken_rhythm', 'NSV.C04.abc_header',
     'NSV.C04.abc_isolation', 'NSV.C04.abc_isolation_book', 'NSV.C04.abc_repeat_errors',
+    'NSV.C04.abc_repeats_expansion', 'NSV.C04.abc_repeats_no_groups', 'NSV.C04.abc_repeats',
 ]
 
 
